@@ -260,6 +260,87 @@ func zz13RootSnapshot(r tuf.RootMetadata) string {
 	return sb.String()
 }
 
+// HarnessC13RootMigration: a legacy root with any combination of controller /
+// network repositories (controller flag on, off, or switched off again), a
+// propagation directive and a GitHub app (trusted or not) answers the
+// corresponding queries identically after migration.
+func HarnessC13RootMigration() {
+	oldRoot := zz13Root(1).(*tufv01.RootMetadata)
+	// multi-repository settings, propagation directives, the GitHub app
+	if verif.Bool("with.controllerrepo") {
+		if err := oldRoot.AddControllerRepository("ctrl", "https://example.com/ctrl", []tuf.Principal{zz13Key("k2")}); err != nil {
+			panic(err)
+		}
+	}
+	if verif.Bool("is.controller") {
+		if err := oldRoot.EnableController(); err != nil {
+			panic(err)
+		}
+		if verif.Bool("with.networkrepo") {
+			if err := oldRoot.AddNetworkRepository("net", "https://example.com/net", []tuf.Principal{zz13Key("k1")}); err != nil {
+				panic(err)
+			}
+		}
+		if verif.Bool("controller.disabled.again") {
+			if err := oldRoot.DisableController(); err != nil {
+				panic(err)
+			}
+		}
+	}
+	if verif.Bool("with.directive") {
+		if err := oldRoot.AddPropagationDirective(tufv01.NewPropagationDirective("d", "https://example.com/up", "refs/heads/main", "", "refs/heads/main", "vendor")); err != nil {
+			panic(err)
+		}
+	}
+	if verif.Bool("with.githubapp") {
+		if err := oldRoot.AddGitHubAppPrincipal(tuf.GitHubAppRoleName, zz13Key("k3")); err != nil {
+			panic(err)
+		}
+		if verif.Bool("githubapp.trusted") {
+			oldRoot.EnableGitHubAppApprovals(tuf.GitHubAppRoleName)
+		}
+	}
+	newRoot := MigrateRootMetadataV01ToV02(oldRoot)
+	verif.Assert(zz13RootSnapshot(oldRoot) == zz13RootSnapshot(newRoot), "root-queries-identical")
+	verif.Assert(zz13RootExtras(oldRoot) == zz13RootExtras(newRoot), "root-multi-repository-directive-and-app-queries-identical")
+	verif.Reach("migrated")
+}
+
+// zz13RootExtras renders the answers to the multi-repository, propagation
+// directive and GitHub app queries of a root.
+func zz13RootExtras(r tuf.RootMetadata) string {
+	var sb strings.Builder
+	sb.WriteString("location=" + r.GetRepositoryLocation() + ";controller=" + strconv.FormatBool(r.IsController()) + ";")
+	other := func(kind string, repos []tuf.OtherRepository) {
+		for _, o := range repos {
+			sb.WriteString(kind + ":" + o.GetName() + "@" + o.GetLocation() + "[")
+			for _, p := range o.GetInitialRootPrincipals() {
+				sb.WriteString(p.ID() + ",")
+			}
+			sb.WriteString("];")
+		}
+	}
+	other("controller", r.GetControllerRepositories())
+	other("network", r.GetNetworkRepositories())
+	for _, d := range r.GetPropagationDirectives() {
+		sb.WriteString("directive:" + d.GetName() + "|" + d.GetUpstreamRepository() + "|" + d.GetUpstreamReference() + "|" + d.GetUpstreamPath() + "|" + d.GetDownstreamReference() + "|" + d.GetDownstreamPath() + ";")
+	}
+	if apps, err := r.GetGitHubAppEntries(); err == nil {
+		var names []string
+		for n := range apps {
+			names = append(names, n)
+		}
+		sort.Strings(names)
+		for _, n := range names {
+			a := apps[n]
+			sb.WriteString("app:" + n + "|" + strings.Join(a.GetPrincipalIDs(), ",") + "|" + strconv.Itoa(a.GetThreshold()) + "|" + strconv.FormatBool(a.IsTrusted()) + ";")
+		}
+	} else {
+		sb.WriteString("apps-error;")
+	}
+	return sb.String()
+}
+
 func zz13RootInvariant(r tuf.RootMetadata, label string) {
 	ps, err := r.GetRootPrincipals()
 	verif.Assert(err == nil, label+":root-role-present")
